@@ -204,12 +204,24 @@ func (t *TSA) RoundTrip(req *http.Request) (*http.Response, error) {
 	}
 	entry.Imprint = treq.MessageImprint.HashedMessage
 	switch out.Kind {
-	case "rejected", "waiting":
+	case "rejected", "waiting", "rejected-badalg", "rejected-badrequest", "rejected-baddataformat", "rejected-systemfailure":
 		status := pkcs9.StatusRejection
 		if out.Kind == "waiting" {
 			status = pkcs9.StatusWaiting
 		}
-		der, _ := asn1.Marshal(struct{ Status pkcs9.PKIStatusInfo }{pkcs9.PKIStatusInfo{Status: status, StatusString: []string{"simulated " + out.Kind}}})
+		si := pkcs9.PKIStatusInfo{Status: status, StatusString: []string{"simulated " + out.Kind}}
+		// PKIFailureInfo (RFC 3161 2.4.2): badAlg(0) badRequest(2) badDataFormat(5) systemFailure(25)
+		switch out.Kind {
+		case "rejected-badalg":
+			si.FailInfo = asn1.BitString{Bytes: []byte{0x80}, BitLength: 1}
+		case "rejected-badrequest":
+			si.FailInfo = asn1.BitString{Bytes: []byte{0x20}, BitLength: 3}
+		case "rejected-baddataformat":
+			si.FailInfo = asn1.BitString{Bytes: []byte{0x04}, BitLength: 6}
+		case "rejected-systemfailure":
+			si.FailInfo = asn1.BitString{Bytes: []byte{0, 0, 0, 0x40}, BitLength: 26}
+		}
+		der, _ := asn1.Marshal(struct{ Status pkcs9.PKIStatusInfo }{si})
 		record()
 		return tsaResp(req, 200, "application/timestamp-reply", der), nil
 	}
